@@ -55,4 +55,11 @@ TEXT = {
         "design_ref": "DESIGN.md section 2, C07",
         "level_note": "Trusted base: hlsim snapshot/diff, the decoy layout, hlref path encoder, reference transfer client. Symlinks pre-planted by an operator inside the root are not modelled.",
     },
+    "C08": {
+        "engine": "E1 bubble world",
+        "technique": "property-based testing (rapid) with an independent reference download client: differential between bytes on disk and the strictly parsed transfer stream / reply size fields",
+        "level_text": "Generated files (boundary sizes, names, stored forks) are downloaded plain, resumed at generated offsets and previewed through the real request handler and transfer loop; the reference client parses the stream strictly and compares every byte with the file on disk and every announced size with what follows.",
+        "design_ref": "DESIGN.md section 2, C08",
+        "level_note": "Trusted base: hlref flattened-file parser, hlsim transfer client, x/text Mac-Roman table (shared with mobius). Sizes bounded at 8 MiB (thorough).",
+    },
 }
